@@ -469,8 +469,11 @@ class Ctx:
                 if hit not in self.known_hits:
                     self.known_hits.append(hit)
                 return
-        self.nviol = getattr(self, "nviol", 0) + 1
-        if self.nviol > 12:
+        # at most 10 violations with a concrete failing input and 4 without are listed per run
+        kind = "found" if (found and case_text is not None) else "nofound"
+        self.nv = getattr(self, "nv", {"found": 0, "nofound": 0})
+        self.nv[kind] += 1
+        if self.nv[kind] > (10 if kind == "found" else 4):
             self.suppressed = getattr(self, "suppressed", 0) + 1
             return
         rp = None
